@@ -155,7 +155,7 @@ impl Drop for CtxPayload {
         untracked(|| {
             self.world.lib_loaded.store(false, Ordering::SeqCst);
             self.world.unloads.fetch_add(1, Ordering::SeqCst);
-            if self.world.check_backtrace.load(Ordering::SeqCst) {
+            if !cfg!(miri) && self.world.check_backtrace.load(Ordering::SeqCst) {
                 let bt = std::backtrace::Backtrace::force_capture().to_string();
                 if bt.contains("cglue_wrapped_") {
                     self.world.unload_inside_wrapper.fetch_add(1, Ordering::SeqCst);
